@@ -18,7 +18,7 @@ for b in ben:
     brow.append(f"| {b} | {re.sub(chr(10), ' ', str(m.get('summary','')))[:260].replace('|','/')} | {', '.join(m.get('files', []))[:120]} |")
 text = f"""## 11. Seeded changes and which checks catch them
 
-{len(rows)} property-breaking changes (eighteen per property - seventeen for C19 -, written in nine rounds) and {len(ben)} behaviour-preserving refactors were produced by
+{len(rows)} property-breaking changes (twenty per property - nineteen for C19 -, written in ten rounds) and {len(ben)} behaviour-preserving refactors were produced by
 fresh sub-agents that saw only the text of one property (or, for the refactors, a list of files) and a scratch worktree of /repo -
 nothing from /verif. Each property-breaking change was confirmed by me in a scratch worktree (`tools/confirm_mut.sh`: the patch applies,
 the 179 tests pass with it, its demonstration fails with it and passes without it) and then run against the registered quick check of
@@ -28,8 +28,8 @@ and asked for different kinds (helper modules, tables, Python idiom slips, featu
 shape-gated tolerance features, exception handling, check ordering); round 5 was a red-team round: the sub-agents were told what the harness
 consists of and asked for changes it is LEAST likely to notice (each explains the blind spot it aims at in `meta.json`); round 6 was a second
 red-team round whose sub-agents were additionally given every earlier idea and the strengthening it had led to; round 7 a third one, whose
-sub-agents were also told about the source-derived dictionary, the size ladder, the process environments and the state observers; rounds 8 and 9 were a fourth and a
-fifth one, each told everything the harness had by then.
+sub-agents were also told about the source-derived dictionary, the size ladder, the process environments and the state observers; rounds 8, 9 and 10 were a fourth, a
+fifth and a sixth one, each told everything the harness had by then.
 
 **Result.** (Numbers for /repo ec6c9f4.) {len(rows) - 4} of the {len(rows)} changes are reported with a concrete failing input by the quick check of the property they break; four are
 reported as a broken proof obligation / correspondence (`no-failing-input-found`, the replay names what no longer checks): C06_10 (a whole new
@@ -141,6 +141,24 @@ another Base64 text of the right SafetyNet nonce (spare bits), TCG device attrib
 whose issuer's name it bears, a compressed-point SubjectPublicKeyInfo (asn1crypto re-encoding), GUID / hex / date / JWT-shaped base64url texts, invisible trailers on names,
 statement members the format does not read holding unknown tags / unassigned simple values, the full product of pubArea enumerations, and a second stored key with the
 CRC-32 and length of the first (`fw.checksum_twin_suffix`).
+
+Round 10 (sixth red-team round: 37 of 40 initially missed) found the assumption every earlier generator shared - that an input IS one value for the duration of a call - and went
+deeper into the arithmetic and the standards: added were (w) **double fetch**: `impl.sequenced_record`, a credential record whose response fields read as X on the first read (what
+the ceremony checks want to see, unsigned) and as Y afterwards (genuinely signed, for another ceremony); X and Y are each refused when presented constantly, so an accepted
+sequence means that what was checked is not what was verified - five changes (C01_19, C02_19, C06_20, C10_20 and a variant) had moved a snapshot; run once per bench in every
+ceremony check; (x) **relations that keep a concatenation**: characters moved across the boundary between type / challenge / origin, bytes moved across the boundary between a
+key's x and y, a challenge that is the hex / Base64 / decimal TEXT of the other one; (y) **keys and signatures with structure**: genuine RSA keys whose primes have the shape ROCA
+detectors fingerprint (or are close to one another), Ed25519 signatures with a chosen nonce (R = the neutral element) made by a hand-written RFC 8032 signer, Ed448 attestation
+keys, certificates re-signed over SHA-1 / SHA-384 / SHA-512, compressed points, X.509 v1 roots and issuer names in another spelling of the same distinguished name (all by
+re-encoding with asn1crypto what cryptography's builders cannot emit); a KeyDescription on a CA certificate above a faulty leaf; TPM Names / qualified names / policy digests
+computed as a TPM computes them; (z) **the state of the calling thread and of the host**: the call made from inside an `except` block, under a decimal context of precision 6,
+with a dependency whose import the changed source newly guards failing inside the library (`srcdict.new_guarded_imports`), real-clock chains with clock-independent faults and with
+v1 roots; (a') hashed inputs beyond 4 and 8 MiB; bursts of hundreds of calls inside every line gap of a call (a bounded cache that is cleared inside the window); new public
+callables called WITH candidate arguments, held open as context managers on another thread and in overlapping non-nested blocks; (b') structure: every exception class of the
+package (not only of `exceptions.py`) derives from the base class, parsed enum fields hold members of the declared class (not equal strings), every binary member of an accepted
+credential equals `urlsafe_b64decode(text + "===")` also with '=' inside the text, every format fault of every format in the environment case lists (a refusal whose MESSAGE
+formats bytes becomes a `BytesWarning` under `-bb`), respelled format names with roots in force. Two false alarms of my own additions showed up only under other seeds in the
+clean passes of the regression (the sibling-certificate fault has no pass-through variant for TPM; a lone surrogate met `str.encode`) and were corrected before the final run.
 
 **Detection must not depend on the random stream.** Re-running all seeded changes under other seeds (`VERIF_SEED=1`, `7`) showed that a few catches
 had been luck: a catalogue entry that picks one of several variants at random (which origin alias, which id spelling, which vandalism) only exposes
